@@ -472,7 +472,7 @@ class LLVMDependencyCMake(CMakeDependency):
 
         llvm_requested_versions = [ver_from_suf(x) for x in get_llvm_tool_names('') if version_compare(ver_from_suf(x), '>=0')]
         if self.version_reqs:
-            llvm_requested_versions = [ver_from_suf(x) for x in get_llvm_tool_names('') if version_compare_many(ver_from_suf(x), self.version_reqs)]
+            llvm_requested_versions = [ver_from_suf(x) for x in get_llvm_tool_names('') if version_compare_many(ver_from_suf(x), self.version_reqs)[0]]
         # CMake sorting before 3.18 is incorrect, sort it here instead
         return sorted(llvm_requested_versions, key=functools.cmp_to_key(version_sorter))
 
